@@ -8,6 +8,9 @@ from ..common import rf, import_gscrib
 
 import_gscrib()
 from gscrib.excepts import ToolStateError, CoolantStateError   # noqa: E402  (an interlock may apply as well)
+from gscrib.formatters import DefaultFormatter                  # noqa: E402
+from gscrib.geometry.bounds import BoundManager                 # noqa: E402
+from gscrib.geometry.point import Point                         # noqa: E402
 
 NAN = "nan"
 
@@ -51,9 +54,18 @@ def ladder(lo, hi):
     return out
 
 
+class PlainFormatter(DefaultFormatter):
+    """A user formatter (set_formatter is public API) that prints whatever number it is given; the bounds must not rely on
+    the bundled formatter refusing NaN."""
+
+    def number(self, number):
+        return format(float(number), ".6f")
+
+
 class C03System(BuilderSystem):
-    def __init__(self, label, bounds, families, translate=None, rebound=None, hooks=False, start=None):
+    def __init__(self, label, bounds, families, translate=None, rebound=None, hooks=False, start=None, formatter=False):
         self.label = label
+        self.formatter = formatter
         self.hooks = hooks
         self.start = start
         self.bounds0 = bounds            # dict name -> (lo, hi); axes -> ((x,y,z),(x,y,z))
@@ -64,6 +76,8 @@ class C03System(BuilderSystem):
 
     def setup(self, st):
         st.bounds = {}
+        if self.formatter:
+            st.g.set_formatter(PlainFormatter())
         for name, (lo, hi) in self.bounds0.items():
             st.g.set_bounds(name, lo, hi)
             st.bounds[name] = (lo, hi)
@@ -302,6 +316,7 @@ def systems(tier):
         ("feed+power-hooks", C03System("feed+power-hooks", {"feed-rate": (10, 100), "tool-power": (200, 300)}, ["feed-rate", "tool-power"], hooks=True), 2),
         ("temps+tool", C03System("temps+tool", {k: ALL[k] for k in ("tool-number", "bed-temperature", "hotend-temperature", "chamber-temperature")},
                                  ["tool-number", "bed", "bed-temperature", "hotend-temperature", "chamber-temperature"]), 2),
+        ("all-seven-user-formatter", C03System("all-seven-user-formatter", ALL, [k for k in ALL if k != "axes"], formatter=True), 1 if tier == "quick" else 2),
     ]
     if tier == "quick":
         return [(l, s, d, None) for l, s, d in q]
@@ -315,6 +330,7 @@ def systems(tier):
         ("feed+power-hooks", C03System("feed+power-hooks", {"feed-rate": (10, 100), "tool-power": (200, 300)}, ["feed-rate", "tool-power"], hooks=True), 3),
         ("all-seven", C03System("all-seven", ALL, list(ALL)), 2),
         ("axes-translated", C03System("axes-translated", {"axes": BOX}, ["axes"], translate=(10, 0, 0)), 3),
+        q[-1],
     ]
     return [(l, s, d, None) for l, s, d in t]
 
@@ -329,11 +345,72 @@ ASSUMPTIONS = ["builder coordinates = machine coordinates (no transform), except
                "G92/G28 words are not motion targets; fan S words ignored"]
 
 
+SCALARS = ("feed-rate", "tool-power", "tool-number", "bed-temperature", "hotend-temperature", "chamber-temperature")
+RANGES = [(10, 100), (0, 1), (-5, -1), (0.5, 0.75), (200, 300)]
+
+
+def grid_case(name, lo, hi, v):
+    """One BoundManager.validate() call on a fresh manager; returns a problem or None."""
+    bm = BoundManager()
+    if name == "axes":
+        bm.set_bounds("axes", Point(*lo), Point(*hi))
+        comps = [None if c is None else val(c) for c in v]
+        want_reject = any(c is not None and outside(c, lo[i], hi[i]) for i, c in enumerate(comps))
+        arg = Point(*comps)
+    else:
+        isint = name == "tool-number"
+        bm.set_bounds(name, lo, hi)
+        arg = val(v)
+        if isint and (isinstance(arg, float) and not arg.is_integer()):
+            return None
+        want_reject = outside(arg, lo, hi)
+    try:
+        bm.validate(name, arg)
+        exc = None
+    except Exception as e:        # noqa: BLE001
+        exc = e
+    if want_reject and exc is None:
+        return ("bound-manager-accepts-out-of-range", f"BoundManager with {name} in [{lo}, {hi}]: validate({name!r}, {arg!r}) returned normally")
+    if want_reject and not isinstance(exc, ValueError):
+        return ("bound-manager-wrong-exception", f"BoundManager with {name} in [{lo}, {hi}]: validate({name!r}, {arg!r}) raised {exc!r}")
+    if not want_reject and exc is not None:
+        return ("bound-manager-rejects-in-range", f"BoundManager with {name} in [{lo}, {hi}]: validate({name!r}, {arg!r}) raised {exc!r}")
+    return None
+
+
+def grid_cases():
+    for name in SCALARS:
+        for lo, hi in RANGES:
+            if name == "tool-number" and (lo != int(lo) or hi != int(hi)):
+                continue
+            for v in ladder(lo, hi) + ["inf", "-inf"]:
+                yield name, lo, hi, v
+    lo, hi = BOX
+    per_axis = [[None] + ladder(lo[i], hi[i]) + ["inf"] for i in range(3)]
+    import itertools
+    for v in itertools.product(*per_axis):
+        yield "axes", list(lo), list(hi), list(v)
+
+
 def run(tier, seed):
-    return run_configs("model_checking", systems(tier), tier, seed, RULE, ASSUMPTIONS)
+    res = run_configs("model_checking", systems(tier), tier, seed, RULE, ASSUMPTIONS)
+    n = 0
+    for name, lo, hi, v in grid_cases():
+        n += 1
+        p = grid_case(name, lo, hi, v)
+        if p:
+            from ..common import Violation
+            res.add(Violation(p[0], p[1], {"kind": "grid", "case": [name, lo, hi, v]}))
+    res.coverage["bound_manager_grid"] = n
+    res.coverage["rule"] += ("; plus a complete grid on BoundManager.validate itself: six scalar properties x 5 ranges x the value ladder with +-inf, and the axes box x "
+                             "every combination of per-axis {unknown, ladder, inf} coordinates")
+    return res
 
 
 def replay(body):
+    if body["replay"].get("kind") == "grid":
+        p = grid_case(*body["replay"]["case"])
+        return {"violations": [list(p)] if p else []}
     label = body["replay"]["config"]
     for l, system, _, _ in systems("thorough") + systems("quick"):
         if l == label:
